@@ -34,6 +34,7 @@ func RunC12(c *Ctx, r *Report) {
 	c.akaPaddingRule(r, prefix)
 	c.akaEmitsAllRule(r, prefix+"aka.emits-every-attribute")
 	c.encodeOwnHeaderRule(r, prefix+"encode-own-header")
+	c.elementFreshRule(r, prefix+"decode.element-fresh")
 	c.akaOrderRule(r, prefix+"aka.order")
 }
 
